@@ -146,7 +146,7 @@ type c19Script struct {
 	Shape string
 }
 
-var c19Shapes = []string{"once", "once-cancel-early", "once-cancel-late", "once-pause-resume", "interval-cancel", "interval-pause-resume", "interval-reschedule", "random", "random", "unknown-ref"}
+var c19Shapes = []string{"once", "once-cancel-early", "once-cancel-late", "once-pause-resume", "interval-cancel", "interval-pause-resume", "interval-reschedule", "live-rereg-pause", "once-live-rereg", "random", "random", "unknown-ref"}
 
 // c19RunRef plays one reference's script on sys against target.
 func c19RunRef(sys *actorSystem, pid *PID, tgt *c19Target, sc c19Script) (res c19RefResult) {
@@ -202,6 +202,55 @@ func c19RunRef(sys *actorSystem, pid *PID, tgt *c19Target, sc c19Script) (res c1
 			viol("nil-error-on-unknown-or-cancelled-reference:"+op, map[string]any{})
 		}
 	}
+	// live: the generation registered under the reference is certainly still in the
+	// scheduler's queue at stamp e: a recurring one always is (until cancelled), a one-shot
+	// is while it is paused or while its delay cannot have elapsed yet.
+	live := func(e int64) bool {
+		if cur == nil || cur.Closed || len(cur.Windows) == 0 {
+			return false
+		}
+		if !cur.Once {
+			return true
+		}
+		if cur.Resumed {
+			return false
+		}
+		return cur.Paused || e-cur.Windows[0].Start+c19Tol < cur.Period
+	}
+	// mustSucceed: an operation on a live reference whose state admits it (pause of a
+	// running one, resume of a paused recurring one, cancel of any) must not report an error
+	mustSucceed := func(op string, e int64, err error) {
+		if err == nil || !live(e) {
+			return
+		}
+		switch op {
+		case "pause":
+			if cur.Paused {
+				return
+			}
+		case "resume":
+			if !cur.Paused || cur.Once {
+				return
+			}
+		}
+		viol("error-on-live-reference:"+op, map[string]any{"gen": cur.Gen, "error": err.Error(), "once": cur.Once, "paused": cur.Paused, "windows": cur.Windows, "period": time.Duration(cur.Period).String()})
+	}
+	mustBeListed := func(when string) {
+		e := now()
+		if !live(e) {
+			return
+		}
+		for _, info := range sys.ListSchedules() {
+			if info.Reference == sc.Ref {
+				return
+			}
+		}
+		// a one-shot may have fired between the stamp and the listing
+		if cur.Once && !cur.Paused && now()-cur.Windows[0].Start+c19Tol >= cur.Period {
+			return
+		}
+		viol("live-reference-not-listed", map[string]any{"gen": cur.Gen, "when": when, "once": cur.Once})
+	}
 	pause := func() {
 		s := now()
 		err := sys.PauseSchedule(sc.Ref)
@@ -212,6 +261,7 @@ func c19RunRef(sys *actorSystem, pid *PID, tgt *c19Target, sc c19Script) (res c1
 		}
 		record("pause", g, 0, s, e, err)
 		mustErr("pause", err)
+		mustSucceed("pause", e, err)
 		if cur != nil && err == nil && !cur.Paused {
 			cur.Paused = true
 			w := &cur.Windows[len(cur.Windows)-1]
@@ -230,6 +280,7 @@ func c19RunRef(sys *actorSystem, pid *PID, tgt *c19Target, sc c19Script) (res c1
 		}
 		record("resume", g, 0, s, e, err)
 		mustErr("resume", err)
+		mustSucceed("resume", e, err)
 		if cur != nil && cur.Paused {
 			cur.Resumed = true
 			if err == nil {
@@ -249,6 +300,7 @@ func c19RunRef(sys *actorSystem, pid *PID, tgt *c19Target, sc c19Script) (res c1
 		}
 		record("cancel", g, 0, s, e, err)
 		mustErr("cancel", err)
+		mustSucceed("cancel", e, err)
 		if cur != nil {
 			// whatever it returned, the reference is forgotten by the scheduler; when it
 			// returned nil the job is gone as well. When it returned an error for a job that
@@ -340,6 +392,7 @@ func c19RunRef(sys *actorSystem, pid *PID, tgt *c19Target, sc c19Script) (res c1
 			// specified; keep its window open so that it is not judged
 			res.Ops = append(res.Ops, c19Op{Op: "note: re-schedule accepted over an active reference"})
 		}
+		mustBeListed("after a rejected re-registration of the live reference")
 		sleep(time.Duration(2 * g.Period))
 		cancel()
 		schedule(false, period())
@@ -348,6 +401,40 @@ func c19RunRef(sys *actorSystem, pid *PID, tgt *c19Target, sc c19Script) (res c1
 			waitDeliveries(g2, 2)
 		}
 		cancel()
+	case "live-rereg-pause":
+		// recurring schedule, a second registration of the live reference (rejected), then
+		// pause / resume / cancel of the first one
+		schedule(false, period())
+		g := cur
+		if !waitDeliveries(g, 1) {
+			res.Inconc = "interval message not delivered within 20s"
+			return res
+		}
+		schedule(rng.Intn(2) == 0, period())
+		mustBeListed("after a rejected re-registration of the live reference")
+		if cur == g {
+			pause()
+			sleep(time.Duration(2*g.Period) + time.Duration(rng.Intn(40))*time.Millisecond)
+			resume()
+			have := len(tgt.deliveries(sc.Ref, g.Gen))
+			waitDeliveries(g, have+1)
+		}
+		cancel()
+	case "once-live-rereg":
+		// one-shot that has not fired, a second registration of its reference (rejected),
+		// then pause or cancel well before the delay
+		p := 400*time.Millisecond + period()
+		schedule(true, p)
+		g := cur
+		sleep(time.Duration(rng.Intn(30)) * time.Millisecond)
+		schedule(rng.Intn(2) == 0, period())
+		mustBeListed("after a rejected re-registration of the live reference")
+		if cur == g {
+			if rng.Intn(2) == 0 {
+				pause()
+			}
+			cancel()
+		}
 	case "unknown-ref":
 		switch rng.Intn(3) {
 		case 0:
@@ -480,7 +567,7 @@ func c19RunRef(sys *actorSystem, pid *PID, tgt *c19Target, sc c19Script) (res c1
 			res.NonTrivial = true
 		}
 	}
-	if sc.Shape == "unknown-ref" || sc.Shape == "once-cancel-early" {
+	if sc.Shape == "unknown-ref" || sc.Shape == "once-cancel-early" || sc.Shape == "once-live-rereg" {
 		res.NonTrivial = true
 	}
 	return res
@@ -723,7 +810,7 @@ func c19ClusterPart(t *testing.T, seed int64, ticks int, realCron bool) (obs c19
 func TestVerif_C19(t *testing.T) {
 	r := verifrt.Start(t, "C19")
 	defer r.Finish()
-	r.Rule("case = one reference with a script of ScheduleOnce / Schedule (delay, interval 20-100ms) / PauseSchedule / ResumeSchedule / CancelSchedule calls (shapes: once, cancel before/after the delay, pause+resume of a once and of an interval schedule, re-schedule over an active and over a cancelled reference, operations on a never-used reference, random sequences), 1-5 references per target actor and 12 target actors concurrently on one system; every successful schedule call is a generation with its own message identity. Oracle = windows built from the harness stamps of call start / return: the k-th delivery of a generation is not earlier than the earliest instant a k-th tick can exist and there are no more deliveries than ticks that can exist (covers not-before-delay, stops after cancel, stops while paused, restarts one interval after resume, at most one for once); a ScheduleOnce that is never cancelled is delivered (structural: job left the scheduler's list, nothing handled); Pause/Resume/Cancel on a never-scheduled or cancelled reference must return an error. Cluster part = 3 local systems whose cluster handle is an in-memory claim registry (NX semantics, schedule noise, injected registry failures): for each synthetic tick all nodes run the scheduler-built job function for the same (reference, run time) concurrently, plus a real per-second cron on all three; per tick at most one delivery across nodes, stale ticks are not delivered, a won claim is delivered. non-trivial = a delivery was observed for a generation that was then cancelled / paused or is a once; cluster ticks count when more than one node reached the registry; distinct by (shape, seed)")
+	r.Rule("case = one reference with a script of ScheduleOnce / Schedule (delay, interval 20-100ms) / PauseSchedule / ResumeSchedule / CancelSchedule calls (shapes: once, cancel before/after the delay, pause+resume of a once and of an interval schedule, re-schedule over an active and over a cancelled reference, a rejected second registration of a live recurring / not-yet-fired one-shot reference followed by pause / resume / cancel of the first one, operations on a never-used reference, random sequences), 1-5 references per target actor and 12 target actors concurrently on one system; every successful schedule call is a generation with its own message identity. Oracle = windows built from the harness stamps of call start / return: the k-th delivery of a generation is not earlier than the earliest instant a k-th tick can exist and there are no more deliveries than ticks that can exist (covers not-before-delay, stops after cancel, stops while paused, restarts one interval after resume, at most one for once); a ScheduleOnce that is never cancelled is delivered (structural: job left the scheduler's list, nothing handled); Pause/Resume/Cancel on a never-scheduled or cancelled reference must return an error; on a reference that is certainly still queued (recurring and not cancelled, one-shot paused or whose delay cannot have elapsed) pause of a running one, resume of a paused recurring one and cancel must succeed, and ListSchedules lists it. Cluster part = 3 local systems whose cluster handle is an in-memory claim registry (NX semantics, schedule noise, injected registry failures): for each synthetic tick all nodes run the scheduler-built job function for the same (reference, run time) concurrently, plus a real per-second cron on all three; per tick at most one delivery across nodes, stale ticks are not delivered, a won claim is delivered. non-trivial = a delivery was observed for a generation that was then cancelled / paused or is a once; cluster ticks count when more than one node reached the registry; distinct by (shape, seed)")
 	r.Assume("quartz ticks are not earlier than their NextRunTime computed inside the call; wall and monotonic clocks differ by less than 2ms over a script; the in-memory registry is a correct NX table (the real olric registry is not exercised)")
 	rng := r.Rand(19)
 	nRefs := r.N(240, 6000)
